@@ -133,7 +133,7 @@ func lapackProp(self, other, what string) *property {
 			a.Floor("query_mode_effects", 10)
 			res.Merge(a)
 			ok := okflow.Run(def, core.Scope{Patterns: []string{"./lapack/gonum"}, Files: sc.Files})
-			ok.Floor("status_call_sites", 20)
+			ok.Floor("status_call_sites", 10)
 			res.Merge(ok)
 		},
 	}
@@ -143,7 +143,7 @@ func init() {
 	properties["C02"] = lapackProp("C02", "C03", "Does not decide backward stability, factor structure, blocked/unblocked agreement or sufficiency of the reported workspace size.")
 	properties["C03"] = lapackProp("C03", "C02", "Does not decide orthogonality, residual identities, ordering of values or convergence.")
 	properties["C07"] = &property{
-		explanation: "Decides, for all 281 exported BLAS and LAPACK entry points and every path through their prologues: ARGS.order (no argument-check panic is reachable after an operand may have been written), ARGS.lencheck (every use of a slice parameter is preceded on every path by a branch on its length — the only thing between a short slice and an out-of-bounds kernel access), ARGS.complete (every int/flag/slice parameter occurs in an argument check; exceptions are a frozen table with reasons), ARGS.query, and STRIDE over BLAS, LAPACK and mat (valid arguments never fault because one operand was addressed with another's stride). Does not decide that the assembly kernels stay in bounds given correct lengths, nor that each check uses the right extent expression.",
+		explanation: "Decides, for all 281 exported BLAS and LAPACK entry points and every path through their prologues: ARGS.order (no argument-check panic is reachable after an operand may have been written), ARGS.lencheck (every use of a slice parameter is preceded on every path by a branch on its length — the only thing between a short slice and an out-of-bounds kernel access), ARGS.complete (every int/flag/slice parameter occurs in an argument check; exceptions are a frozen table with reasons), ARGS.query, TWIN.generated (the prologues of the untested float32/complex64 routines are the images of the tested ones) and TWIN.bounds (the bounds-checked and unchecked mat element accessors panic under the same conditions), STRIDE.len (a length check of operand p is written in p's own increment / leading dimension) and STRIDE over BLAS, LAPACK and mat (valid arguments never fault because one operand was addressed with another's stride). Does not decide that the assembly kernels stay in bounds given correct lengths, nor that each check uses the right extent expression.",
 		assumptions: commonAssumptions,
 		run: func(tier string, res *core.Result) {
 			a := args.Run(def, core.Pkgs("./blas/gonum"), blasArgs)
@@ -158,7 +158,12 @@ func init() {
 			res.Merge(l)
 			r := stride.Run(def, core.Pkgs(append(append([]string{"./mat"}, blasPkgs...), lapackPkgs...)...))
 			r.Floor("index_sites", 6000)
+			r.Floor("length_check_comparisons", 500)
 			res.Merge(r)
+			// the argument checks of the generated S/C routines are those of their D/Z sources
+			t := twin.Run(twin.Which{Generated: true, Prefixes: []string{"blas/"}, Bounds: true, BoundsFamilies: []string{"mat-index"}})
+			t.Floor("generated_file_pairs", 17)
+			res.Merge(t)
 		},
 	}
 	properties["C04"] = &property{
